@@ -12,7 +12,8 @@
 (***************************************************************************)
 EXTENDS Naturals, Integers, Sequences, FiniteSets, TLC
 
-CONSTANTS NPkts, Resols, Offsets, ExtraKinds
+CONSTANTS NPkts, Resols, Offsets, ExtraKinds,
+          PerInterface     \* TRUE: the reader keeps resolution / offset per interface (the repaired code); FALSE: first interface for all
 
 \* units per second of a resolution option
 \* (scaled for TLC's 32-bit integers: 10^-6 -> 10^-4, 10^-9 -> 10^-5, 2^-20 -> 2^-14; the default equals 10^-6 as in the code)
@@ -20,34 +21,44 @@ Ups(r) == CASE r = "none" -> 10000 [] r = "d3" -> 1000 [] r = "d6" -> 10000 [] r
             [] r = "b10" -> 1024 [] r = "b20" -> 16384
 Time(i) == 8 * 4000 + 3 * i + 1          \* capture time of packet i in eighths of a second
 
-VARIABLES fmt, le, resol, tsoff, extras, pos, divisor, offset, yielded, keys
-vars == <<fmt, le, resol, tsoff, extras, pos, divisor, offset, yielded, keys>>
+VARIABLES fmt, le, resol, tsoff, extras, pos, divisor, offset, yielded, keys,
+          two, resol2, tsoff2, ifaces      \* a second interface (every second packet is captured on it) and the reader's interface table
+vars == <<fmt, le, resol, tsoff, extras, pos, divisor, offset, yielded, keys, two, resol2, tsoff2, ifaces>>
 
 \* the file: sequence of blocks [kind, raw (timestamp units), id]
-Raw(i) == (Time(i) - 8 * tsoff) * (Ups(resol) \div 8)       \* what the writer stores: (time - offset) in interface units
-Ex(k) == IF k \in extras THEN <<[kind |-> "OTHER", raw |-> 0, id |-> 0]>> ELSE <<>>
+OnSecond(i) == two /\ i % 2 = 0
+Raw(i) == IF OnSecond(i) THEN (Time(i) - 8 * tsoff2) * (Ups(resol2) \div 8)
+          ELSE (Time(i) - 8 * tsoff) * (Ups(resol) \div 8)       \* what the writer stores: (time - offset) in interface units
+Ex(k) == IF k \in extras THEN <<[kind |-> "OTHER", raw |-> 0, id |-> 0, ifc |-> 0]>> ELSE <<>>
 RECURSIVE PktBlocks(_)
-PktBlocks(i) == IF i > NPkts THEN <<>> ELSE <<[kind |-> "EPB", raw |-> Raw(i), id |-> i]>> \o Ex(i + 1) \o PktBlocks(i + 1)
-Blocks == Ex(0) \o <<[kind |-> "DSB", raw |-> 0, id |-> 0]>> \o Ex(1) \o PktBlocks(1)
+PktBlocks(i) == IF i > NPkts THEN <<>> ELSE <<[kind |-> "EPB", raw |-> Raw(i), id |-> i, ifc |-> IF OnSecond(i) THEN 2 ELSE 1]>> \o Ex(i + 1) \o PktBlocks(i + 1)
+Idb(n) == [kind |-> "IDB", raw |-> 0, id |-> n, ifc |-> n]
+Blocks == Ex(0) \o <<Idb(1)>> \o (IF two THEN <<Idb(2)>> ELSE <<>>)
+          \o <<[kind |-> "DSB", raw |-> 0, id |-> 0, ifc |-> 0]>> \o Ex(1) \o PktBlocks(1)
 
 Init == /\ fmt \in {"pcap", "pcapng"} /\ le \in BOOLEAN
         /\ resol \in (IF fmt = "pcap" THEN {"d6"} ELSE Resols)
         /\ tsoff \in (IF fmt = "pcap" THEN {0} ELSE Offsets)
         /\ extras \in (IF fmt = "pcap" THEN {{}} ELSE SUBSET ExtraKinds)
-        /\ pos = 0 /\ divisor = 0 /\ offset = 0 /\ yielded = <<>> /\ keys = 0
+        /\ two \in (IF fmt = "pcap" THEN {FALSE} ELSE BOOLEAN)
+        /\ resol2 \in (IF two THEN Resols ELSE {"none"}) /\ tsoff2 \in (IF two THEN Offsets ELSE {0})
+        /\ pos = 0 /\ divisor = 0 /\ offset = 0 /\ yielded = <<>> /\ keys = 0 /\ ifaces = <<>>
 
 \* Reader.__init__: byte order from the byte-order magic, divisor / offset from the interface description options
 Open == /\ pos = 0
         /\ divisor' = Ups(resol) /\ offset' = tsoff
-        /\ pos' = 1 /\ UNCHANGED <<fmt, le, resol, tsoff, extras, yielded, keys>>
+        /\ pos' = 1 /\ UNCHANGED <<fmt, le, resol, tsoff, extras, yielded, keys, two, resol2, tsoff2, ifaces>>
 \* Reader.__iter__: one block per step
 Step == /\ pos >= 1 /\ pos <= Len(Blocks)
         /\ LET b == Blocks[pos] IN
-           CASE b.kind = "EPB" -> /\ yielded' = Append(yielded, [t8 |-> 8 * offset + b.raw \div (divisor \div 8), id |-> b.id])
-                                  /\ UNCHANGED keys
-             [] b.kind = "DSB" -> /\ keys' = (IF fmt = "pcapng" THEN keys + 1 ELSE keys) /\ UNCHANGED yielded
-             [] OTHER -> UNCHANGED <<yielded, keys>>
-        /\ pos' = pos + 1 /\ UNCHANGED <<fmt, le, resol, tsoff, extras, divisor, offset>>
+           CASE b.kind = "IDB" -> /\ ifaces' = Append(ifaces, IF b.ifc = 1 THEN <<Ups(resol), tsoff>> ELSE <<Ups(resol2), tsoff2>>)
+                                  /\ UNCHANGED <<yielded, keys>>
+             [] b.kind = "EPB" -> LET par == IF PerInterface /\ b.ifc <= Len(ifaces) THEN ifaces[b.ifc] ELSE <<divisor, offset>> IN
+                                  /\ yielded' = Append(yielded, [t8 |-> 8 * par[2] + b.raw \div (par[1] \div 8), id |-> b.id])
+                                  /\ UNCHANGED <<keys, ifaces>>
+             [] b.kind = "DSB" -> /\ keys' = (IF fmt = "pcapng" THEN keys + 1 ELSE keys) /\ UNCHANGED <<yielded, ifaces>>
+             [] OTHER -> UNCHANGED <<yielded, keys, ifaces>>
+        /\ pos' = pos + 1 /\ UNCHANGED <<fmt, le, resol, tsoff, extras, divisor, offset, two, resol2, tsoff2>>
 Next == Open \/ Step
 Spec == Init /\ [][Next]_vars
 
